@@ -41,11 +41,11 @@ var bodyPkgs = map[string]bool{
 	"strings": true, "strconv": true, "time": true, "unicode/utf8": true, "unicode": true, "errors": true, "math": true,
 	"github.com/google/fhir/go/proto/google/fhir/proto/r4/core/datatypes_go_proto": true,
 	"github.com/shopspring/decimal": true,
-	"net/url": true,
+	"net/url": true, "path": true,
 }
 
 var execStdPkgs = map[string]bool{
-	"time": true, "net/url": true,
+	"time": true, "net/url": true, "path": true,
 	"strings": true, "strconv": true, "unicode": true, "slices": true, "sort": true, "cmp": true,
 }
 
